@@ -20,8 +20,9 @@ Section FiltChainAddr.
   Notation fwd := (ChainAddr.fwd ffun afun regex_match).
 
   (* one step of the larger kind, and a whole path of them *)
-  Definition nav1f (root : value) (x : fstep) (lv : list pstep * value) : list (list pstep * value) :=
+  Fixpoint nav1f (root : value) (x : fstep) (lv : list pstep * value) : list (list pstep * value) :=
     match x with
+    | FR y => flat_map (fun cu => nav1f root y (cu_loc cu, snd cu)) (containers (Some (fst lv)) (snd lv))
     | FS y => nav1r y lv
     | FE i => navf i lv
     | FC i o lit => navp (ctest i o (lit_num parse_float lit)) lv
@@ -31,8 +32,9 @@ Section FiltChainAddr.
   Fixpoint nav_allf (root : value) (l : list fstep) (lv : list pstep * value) : list (list pstep * value) :=
     match l with [] => [lv] | x :: r => flat_map (nav_allf root r) (nav1f root x lv) end.
 
-  Definition fseg (x : fstep) (b1 b2 : basic) (next : onode) : node :=
+  Fixpoint fseg (x : fstep) (b1 b2 : basic) (next : onode) : node :=
     match x with
+    | FR y => Node (KRec true true) b1 (OSome (fseg y b1 b2 next))
     | FS y => seg y b1 b2 next
     | FE i => Node (filt_kind cfg i) b2 next
     | FC i o lit => Node (cmp_kind cfg i o (lit_num parse_float lit)) b2 next
@@ -40,14 +42,26 @@ Section FiltChainAddr.
     | FQ d => Node (fq_kind cfg parse_float d) b2 next
     end.
 
-  Lemma sp_fseg x b1 b2 next root p v : fstep_ok x = true -> small root -> small v ->
+  Lemma sp_fseg x b1 b2 next root : forall p v, fstep_ok x = true -> small root -> small v ->
     sp (fseg x b1 b2 next) root (Some p, v) = flat_map (fwd b2 next root) (nav1f root x (p, v)).
   Proof.
-    intros Hs Hr Hsm. destruct x as [y|i|i o lit|i|d]; cbn [fseg nav1f fstep_ok] in *; [| | |apply (sp_neg cfg ffun afun regex_match); assumption|apply (sp_fq cfg parse_float ffun afun regex_match); assumption].
+    induction x as [y|i|i o lit|i|d|y IH]; intros p v Hs Hr Hsm.
+    6: { cbn [fstep_ok] in Hs. apply andb_true_iff in Hs. destruct Hs as [Hf Hs]. cbn [fseg nav1f fst snd].
+         assert (E : sp (Node (KRec true true) b1 (OSome (fseg y b1 b2 next))) root (Some p, v) =
+                     flat_map (fun cu => sp (fseg y b1 b2 next) root cu) (containers (Some p) v)).
+         { cbn [Spec.sp fst snd]. apply flat_map_ext'. intros [l x]. cbn [snd].
+           destruct y as [y0|i|i o lit|i|d|y0]; try discriminate Hf; cbn [fseg]; destruct x; reflexivity. }
+         rewrite E. rewrite flat_map_flat_map. apply flat_map_ext_in'. intros cu Hin.
+         pose proof (containers_some v p Hsm) as Hc. rewrite Forall_forall in Hc. destruct (Hc cu Hin) as [[l Hl] Hsx].
+         destruct cu as [ol x]. cbn [fst snd] in *. subst ol. unfold cu_loc. cbn [fst snd].
+         apply IH; assumption. }
+    all: cbn [fseg nav1f fstep_ok] in *.
     - apply (sp_seg ffun afun regex_match); assumption.
     - apply (sp_filt cfg ffun afun regex_match); assumption.
     - apply andb_true_iff in Hs. destruct Hs as [Hs _]. apply andb_true_iff in Hs. destruct Hs as [Hs _].
       apply (sp_cmp cfg ffun afun regex_match); assumption.
+    - apply (sp_neg cfg ffun afun regex_match); assumption.
+    - apply (sp_fq cfg parse_float ffun afun regex_match); assumption.
   Qed.
 
   Lemma navp_small h p v : small v -> Forall (fun lv => small (snd lv)) (navp h (p, v)).
@@ -74,27 +88,41 @@ Section FiltChainAddr.
       destruct (reaches i y); [|contradiction]. destruct Hk as [E|[]]. inversion E; subst. eapply small_obj_lookup; eassumption.
   Qed.
   Lemma nav1f_small root x p v : small v -> Forall (fun lv => small (snd lv)) (nav1f root x (p, v)).
-  Proof. intros Hsm. destruct x as [y|i|i o lit|i|d]; cbn [nav1f]; [apply nav1r_small|apply navf_small|apply navp_small|apply navp_small|apply navp_small]; exact Hsm. Qed.
-
-  Lemma fin_fpres_f x r : exists b1 b2, fin (fpres cfg parse_float (x :: r)) = OSome (fseg x b1 b2 (fin (fpres cfg parse_float r))) /\ accessor b2 = cfg_accessor cfg.
   Proof.
-    unfold fpres. cbn [flat_map]. destruct x as [[s|s]|i|i o lit|i|d]; cbn [fpre_of rstep_pre app fin fst snd fseg ChainAddr.seg].
-    - eexists (pre_basic cfg s), _. split; reflexivity.
-    - eexists _, _. split; [reflexivity|]. destruct s as [q k|k|ds|[|]|sa sb sc|u us]; reflexivity.
-    - eexists (filt_basic cfg i), _. split; reflexivity.
-    - eexists (filt_basic cfg i), _. split; reflexivity.
-    - eexists (filt_basic cfg i), _. split; reflexivity.
-    - eexists (fq_basic cfg d), _. split; reflexivity.
+    revert p v. induction x as [y|i|i o lit|i|d|y IH]; intros p v Hsm; cbn [nav1f]; [apply nav1r_small|apply navf_small|apply navp_small|apply navp_small|apply navp_small|]; try exact Hsm.
+    cbn [fst snd]. apply Forall_forall. intros a Ha. apply in_flat_map in Ha. destruct Ha as [cu [Hcu Ha]].
+    pose proof (containers_some v p Hsm) as Hc. rewrite Forall_forall in Hc. destruct (Hc cu Hcu) as [_ Hs].
+    pose proof (IH (cu_loc cu) (snd cu) Hs) as H. rewrite Forall_forall in H. exact (H a Ha).
   Qed.
-  Lemma fchain_node_seg x r : exists b1 b2, fchain_node cfg parse_float (x :: r) = fseg x b1 b2 (fin (fpres cfg parse_float r)) /\ accessor b2 = cfg_accessor cfg.
+
+  Lemma fin_fpre x : forall tl, fstep_ok x = true ->
+    exists b1 b2, fin (fpre_of cfg parse_float x ++ tl) = OSome (fseg x b1 b2 (fin tl)) /\ accessor b2 = cfg_accessor cfg.
   Proof.
-    unfold fchain_node, node_of, fpres. cbn [flat_map]. destruct x as [[s|s]|i|i o lit|i|d]; cbn [fpre_of rstep_pre app fin fst snd fseg ChainAddr.seg].
+    destruct x as [[s|s]|i|i o lit|i|d|y]; intros tl Hok; cbn [fpre_of rstep_pre app fin fst snd fseg ChainAddr.seg].
     - eexists (pre_basic cfg s), _. split; reflexivity.
     - eexists _, _. split; [reflexivity|]. destruct s as [q k|k|ds|[|]|sa sb sc|u us]; reflexivity.
     - eexists (filt_basic cfg i), _. split; reflexivity.
     - eexists (filt_basic cfg i), _. split; reflexivity.
     - eexists (filt_basic cfg i), _. split; reflexivity.
     - eexists (fq_basic cfg d), _. split; reflexivity.
+    - cbn [fstep_ok] in Hok. apply andb_true_iff in Hok. destruct Hok as [Hf _].
+      destruct y as [y0|i|i o lit|i|d|y0]; try discriminate Hf; cbn [fpre_of app fin fst snd fseg]; eexists _, _; (split; reflexivity).
+  Qed.
+  Lemma fin_fpres_f x r : fstep_ok x = true ->
+    exists b1 b2, fin (fpres cfg parse_float (x :: r)) = OSome (fseg x b1 b2 (fin (fpres cfg parse_float r))) /\ accessor b2 = cfg_accessor cfg.
+  Proof. unfold fpres. cbn [flat_map]. apply fin_fpre. Qed.
+  Lemma fchain_node_seg x r : fstep_ok x = true ->
+    exists b1 b2, fchain_node cfg parse_float (x :: r) = fseg x b1 b2 (fin (fpres cfg parse_float r)) /\ accessor b2 = cfg_accessor cfg.
+  Proof.
+    intros Hok. unfold fchain_node, node_of, fpres. cbn [flat_map]. destruct x as [[s|s]|i|i o lit|i|d|y]; cbn [fpre_of rstep_pre app fin fst snd fseg ChainAddr.seg].
+    - eexists (pre_basic cfg s), _. split; reflexivity.
+    - eexists _, _. split; [reflexivity|]. destruct s as [q k|k|ds|[|]|sa sb sc|u us]; reflexivity.
+    - eexists (filt_basic cfg i), _. split; reflexivity.
+    - eexists (filt_basic cfg i), _. split; reflexivity.
+    - eexists (filt_basic cfg i), _. split; reflexivity.
+    - eexists (fq_basic cfg d), _. split; reflexivity.
+    - cbn [fstep_ok] in Hok. apply andb_true_iff in Hok. destruct Hok as [Hf _].
+      destruct y as [y0|i|i o lit|i|d|y0]; try discriminate Hf; cbn [fpre_of app fin fst snd fseg]; eexists _, _; (split; reflexivity).
   Qed.
 
   Lemma sp_fchain : forall r x b1 b2, forallb fstep_ok (x :: r) = true -> accessor b2 = cfg_accessor cfg ->
@@ -105,7 +133,8 @@ Section FiltChainAddr.
     induction r as [|y r IH]; intros x b1 b2 Hs Hb; cbn [forallb] in Hs; apply andb_true_iff in Hs; destruct Hs as [H1 H2].
     - exists b2. split; [exact Hb|]. intros root p v Hr Hsm. change (fin (fpres cfg parse_float [])) with ONone. rewrite sp_fseg by assumption.
       cbn [nav_allf]. rewrite <- flat_map_single, flat_map_flat_map. apply flat_map_ext'. intros lv. reflexivity.
-    - destruct (fin_fpres_f y r) as (c1 & c2 & Ef & Hc). destruct (IH y c1 c2 H2 Hc) as (B & HB & Hsp).
+    - assert (Hy : fstep_ok y = true) by (cbn [forallb] in H2; apply andb_true_iff in H2; exact (proj1 H2)).
+      destruct (fin_fpres_f y r Hy) as (c1 & c2 & Ef & Hc). destruct (IH y c1 c2 H2 Hc) as (B & HB & Hsp).
       exists B. split; [exact HB|]. intros root p v Hr Hsm. rewrite Ef, sp_fseg by assumption.
       cbn [nav_allf]. rewrite map_flat_map'. apply flat_map_ext_in'. intros [l z] Hin. unfold ChainAddr.fwd. cbn [fst snd]. apply Hsp; [exact Hr|].
       pose proof (nav1f_small root x p v Hsm) as Hn. rewrite Forall_forall in Hn. exact (Hn (l, z) Hin).
@@ -114,7 +143,8 @@ Section FiltChainAddr.
   Lemma spec_fchain x r doc : forallb fstep_ok (x :: r) = true -> small doc ->
     spec_results ffun afun regex_match (fchain_node cfg parse_float (x :: r)) doc = map (loc_result cfg) (nav_allf doc (x :: r) ([], doc)).
   Proof.
-    intros Hs Hsm. destruct (fchain_node_seg x r) as (b1 & b2 & En & Hb). destruct (sp_fchain r x b1 b2 Hs Hb) as (B & HB & Hsp).
+    intros Hs Hsm. assert (Hx : fstep_ok x = true) by (cbn [forallb] in Hs; apply andb_true_iff in Hs; exact (proj1 Hs)).
+    destruct (fchain_node_seg x r Hx) as (b1 & b2 & En & Hb). destruct (sp_fchain r x b1 b2 Hs Hb) as (B & HB & Hsp).
     unfold spec_results. rewrite En, Hsp by exact Hsm. rewrite map_map. apply map_ext. intros [l z].
     cbn [wrap fst snd]. rewrite HB. unfold loc_result. cbn [fst snd]. destruct (cfg_accessor cfg); reflexivity.
   Qed.
@@ -147,10 +177,12 @@ Section FiltChainAddr.
 
   (* steps whose filters mention the document root nowhere select the same whatever the root is *)
   Definition bq_rootfree (b : bq) : bool := match b with BRE _ | BRN _ | BCR _ _ _ | BPQ _ _ _ => false | _ => true end.
-  Definition fstep_rootfree (x : fstep) : bool := match x with FQ d => forallb (forallb bq_rootfree) d | _ => true end.
-  Lemma nav1f_rootfree root root' x lv : fstep_rootfree x = true -> nav1f root x lv = nav1f root' x lv.
+  Fixpoint fstep_rootfree (x : fstep) : bool := match x with FQ d => forallb (forallb bq_rootfree) d | FR y => fstep_rootfree y | _ => true end.
+  Lemma nav1f_rootfree root root' x : forall lv, fstep_rootfree x = true -> nav1f root x lv = nav1f root' x lv.
   Proof.
-    intros H. destruct x as [y|i|i o lit|i|d]; cbn [nav1f]; try reflexivity. cbn [fstep_rootfree] in H.
+    induction x as [y|i|i o lit|i|d|y IH]; intros lv H; cbn [nav1f]; try reflexivity.
+    2: { cbn [fstep_rootfree] in H. apply flat_map_ext'. intros cu. apply IH. exact H. }
+    cbn [fstep_rootfree] in H.
     assert (E : forall vals v, dnf_test parse_float regex_match root vals d v = dnf_test parse_float regex_match root' vals d v).
     { intros vals v. unfold dnf_test. induction d as [|c d IH]; [reflexivity|]. cbn [forallb] in H. apply andb_true_iff in H. destruct H as [H1 H2].
       cbn [existsb]. rewrite (IH H2). f_equal. clear -H1. induction c as [|b c IH]; [reflexivity|]. cbn [forallb] in H1. apply andb_true_iff in H1. destruct H1 as [Hb Hc].
